@@ -5,6 +5,7 @@
 #include <unistd.h>
 #include <sys/epoll.h>
 #include <algorithm>
+#include <cmath>
 
 extern "C" size_t cjet_get_alloc_size(void) __attribute__((weak));
 extern "C" int get_number_of_peers(void) __attribute__((weak));
@@ -401,12 +402,15 @@ void World::check_replicas() {
 // ------------------------------------------------------------------ ledger mode (C02 hostile shapes, C06)
 static std::string idkey(const JV &id) {
 	if (id.t == JV::Str) return "s" + id.s;
-	char b[40]; snprintf(b, sizeof b, "n%.17g", id.d); return b;
+	char b[40]; snprintf(b, sizeof b, "n%.15g", id.d); return b; // 15 significant digits: what a JSON printer must preserve
 }
 
 void World::ledger_request(Client &cl, const std::string &text) {
 	JV j;
-	if (!json_parse(text, j)) { cl.policy.set("maydrop", JV::boolean(true)); return; }
+	if (!json_parse(text, j)) {
+		// the harness parser is strict, the daemon's is lenient: what it makes of this text is not predictable, so only survival is checked on this connection from here on
+		cl.policy.set("maydrop", JV::boolean(true)); cl.no_expect = true; probe("ledger_unparsable_message"); return;
+	}
 	auto reg = [&](const JV &o) {
 		if (o.t != JV::Obj) return false;
 		const JV *id = nullptr;
@@ -414,7 +418,7 @@ void World::ledger_request(Client &cl, const std::string &text) {
 		bool is_req = false, is_resp = false;
 		for (auto &kv : o.o) { std::string k = kv.first; for (auto &ch : k) ch = (char)tolower((unsigned char)ch); if (k == "method") is_req = true; else if (k == "result" || k == "error") is_resp = true; }
 		if (!is_req && is_resp) { probe("response_as_request"); if (!id || id->t != JV::Str) return false; return true; }
-		if (id && (id->t == JV::Str || id->t == JV::Num)) { cl.ledger[idkey(*id)]++; probe("ledger_request"); if (id->t == JV::Num && id->d != (double)(long long)id->d) probe("id_fraction"); if (id->t == JV::Num && (id->d > 2147483647.0 || id->d < -2147483648.0)) probe("id_beyond_int"); }
+		if (id && (id->t == JV::Str || id->t == JV::Num)) { cl.ledger[idkey(*id)]++; probe("ledger_request"); if (id->t == JV::Num && id->d != std::floor(id->d)) probe("id_fraction"); if (id->t == JV::Num && (id->d > 2147483647.0 || id->d < -2147483648.0)) probe("id_beyond_int"); }
 		else probe("no_id_request");
 		return true;
 	};
@@ -432,6 +436,8 @@ void World::ledger_frame(Client &cl, const Frame &f) {
 	if (r == e) violation("C02", "result-and-error", "response carries both or neither of result and error: " + frame_text(f));
 	if (id->t != JV::Str && id->t != JV::Num) violation("C02", "response-id-type", "response with an id that is neither string nor number: " + frame_text(f));
 	auto it = cl.ledger.find(idkey(*id));
+	while ((it == cl.ledger.end() || it->second <= 0) && feed_one_pending()) it = cl.ledger.find(idkey(*id)); // a message of the same read not yet accounted
+	if (cl.no_expect) return;
 	if (it == cl.ledger.end() || it->second <= 0)
 		violation("C02", "unsolicited-or-duplicate-response", "connection c" + std::to_string(cl.idx) + " received " + frame_text(f) + " but has no outstanding request with an equal id");
 	it->second--;
